@@ -11,3 +11,9 @@ TEXT ·verifGetg(SB),NOSPLIT,$0-8
 	MOVQ (TLS), AX
 	MOVQ AX, ret+0(FP)
 	RET
+
+// func verifGetBP() unsafe.Pointer
+// the frame pointer register of the caller (this function has no frame of its own)
+TEXT ·verifGetBP(SB),NOSPLIT,$0-8
+	MOVQ BP, ret+0(FP)
+	RET
